@@ -206,6 +206,23 @@ Theorem prep_tuple_member_by_member : forall mdf nz members items ps,
 Proof. exact prep_tuple_members. Qed.
 Print Assumptions prep_tuple_member_by_member.
 
+(* ... so a Dict / Tuple observation whose members are supported inputs with the same leading dimensions is prepared
+   into members of shape batch :: network input shape of the member's space *)
+Theorem prep_shape_dict : forall mdf nz fields items lead,
+  Forall (fun it => exists l, lookup (fst it) fields = Some l /\ supported mdf l lead (snd it)) items ->
+  exists ps, prep_dict mdf nz fields items = Some ps /\
+    Forall2 (fun it p => fst it = fst p /\ exists l, lookup (fst it) fields = Some l /\
+                         shp (snd p) = prod lead :: net_input_shape l) items ps.
+Proof. exact prep_dict_shape_lemma. Qed.
+Print Assumptions prep_shape_dict.
+
+Theorem prep_shape_tuple : forall mdf nz members items lead,
+  Forall2 (fun l t => supported mdf l lead t) members items ->
+  exists ps, prep_tuple mdf nz members items = Some ps /\
+    Forall2 (fun l p => shp p = prod lead :: net_input_shape l) members ps.
+Proof. exact prep_tuple_shape_lemma. Qed.
+Print Assumptions prep_shape_tuple.
+
 (* centralised critics: row b of the stacked input is made of the agents' rows b only (vector spaces: cat on dim 1;
    image spaces: stack on dim 2), for any number of agents, any batch size and any widths *)
 Theorem stack_critic_vector_rows : forall ts b,
